@@ -514,6 +514,14 @@ func (in *Interp) sprintfSym(format string, args Slice) (Str, bool) {
 				res = in.strConcat(res, in.mkStr(in.bytesOf(x)))
 			case *Term:
 				if !x.IsConst() {
+					if format[i] == 'd' && x.Sort.K == SBV && x.Sort.W == 64 {
+						d, ok := in.decimalBytes(x, isSigned(iv.T))
+						if !ok {
+							return Str{}, false
+						}
+						res = in.strConcat(res, in.mkStr(d))
+						continue
+					}
 					return Str{}, false
 				}
 				g, ok := in.toGo(iv)
@@ -694,4 +702,41 @@ func (in *Interp) parseFloatBytes(b []*Term) Value {
 		return Tuple{ts.F64Const(0), errv}
 	}
 	return Tuple{ts.UF(fmt.Sprintf("pf_%d", n), F64Sort, b...), Iface{}}
+}
+
+// decimalBytes renders a symbolic 64-bit integer in decimal at byte level when it has at most four
+// digits (the digit count is decided by forking on the value's range); larger magnitudes are outside
+// the bound of byte-level formatted text.
+func (in *Interp) decimalBytes(x *Term, signed bool) ([]*Term, bool) {
+	ts := in.ts
+	var out []*Term
+	mag := x
+	if signed && in.branch(ts.Cmp(OSLt, x, in.i64(0)), "fmt-neg") {
+		out = append(out, ts.BVConst(8, '-'))
+		mag = ts.Neg(x)
+	}
+	digits := 0
+	for n, lim := 1, uint64(10); n <= 4; n, lim = n+1, lim*10 {
+		if in.branch(ts.Cmp(OULt, mag, ts.BVConst(64, lim)), "fmt-digits") {
+			digits = n
+			break
+		}
+	}
+	if digits == 0 {
+		panic(pathEnd{Verdict{Kind: "ASSUME", Label: "symbolic integer with more than four digits in formatted text (outside bound)"}})
+	}
+	pow := []uint64{1, 10, 100, 1000}
+	for i := digits - 1; i >= 0; i-- {
+		var d *Term
+		switch {
+		case digits == 1:
+			d = mag
+		case i == digits-1:
+			d = ts.Bin(OUDiv, mag, ts.BVConst(64, pow[i])) // the leading digit needs no modulo
+		default:
+			d = ts.Bin(OURem, ts.Bin(OUDiv, mag, ts.BVConst(64, pow[i])), ts.BVConst(64, 10))
+		}
+		out = append(out, ts.Bin(OAdd, ts.Extract(d, 7, 0), ts.BVConst(8, '0')))
+	}
+	return out, true
 }
